@@ -426,6 +426,10 @@ func (ctx *context) prepareConnectionSignature(didDoc *did.Doc, verKey string) (
 
 		signingKey = pubKey.X
 	} else {
+		if !isASCII(verKey) {
+			return nil, errors.New("verification key is not base58 encoded")
+		}
+
 		signingKey = base58.Decode(verKey)
 	}
 
@@ -689,6 +693,10 @@ func (ctx *context) handleInboundResponse(response *Response) (stateAction, *con
 		return nil, nil, fmt.Errorf("get connection record: %w", err)
 	}
 
+	if len(connRecord.RecipientKeys) == 0 {
+		return nil, nil, errors.New("connection record has no recipient keys")
+	}
+
 	conn, err := ctx.verifySignature(response.ConnectionSignature, connRecord.RecipientKeys[0])
 	if err != nil {
 		return nil, nil, err
@@ -750,6 +758,10 @@ func (ctx *context) verifySignature(connSignature *ConnectionSignature, recipien
 
 		verKey = pubKey.X
 	} else {
+		if !isASCII(recipientKeys) {
+			return nil, errors.New("recipient key is not base58 encoded")
+		}
+
 		verKey = base58.Decode(recipientKeys)
 	}
 
@@ -813,6 +825,10 @@ func (ctx *context) getInvitationRecipientKey(invitation *Invitation) (string, e
 		return recKey, nil
 	}
 
+	if len(invitation.RecipientKeys) == 0 {
+		return "", errors.New("get invitation recipient key: invitation has no recipient keys")
+	}
+
 	return invitation.RecipientKeys[0], nil
 }
 
@@ -834,6 +850,10 @@ func isDIDCommV2(mediaTypeProfiles []string) bool {
 
 // returns the did:key ID of the first element in the doc's destination RecipientKeys.
 func recipientKey(doc *did.Doc) (string, error) {
+	if len(doc.Service) == 0 {
+		return "", errors.New("recipientKey: DID Doc has no service")
+	}
+
 	serviceType := didcommutil.GetServiceType(doc.Service[0].Type)
 
 	switch serviceType {
@@ -843,8 +863,24 @@ func recipientKey(doc *did.Doc) (string, error) {
 			return "", fmt.Errorf("failed to create destination: %w", err)
 		}
 
+		if len(dest.RecipientKeys) == 0 {
+			return "", errors.New("recipientKey: destination has no recipient keys")
+		}
+
 		return dest.RecipientKeys[0], nil
 	default:
 		return "", fmt.Errorf("recipientKeyAsDIDKey: invalid DID Doc service type: '%v'", doc.Service[0].Type)
 	}
+}
+
+// isASCII tells whether s has ASCII characters only: base58.Decode indexes its alphabet table with the runes of its
+// input and panics on any other rune.
+func isASCII(s string) bool {
+	for i := 0; i < len(s); i++ {
+		if s[i] >= 0x80 { //nolint:gomnd
+			return false
+		}
+	}
+
+	return true
 }
